@@ -10,11 +10,7 @@ Import ListNotations.
 Open Scope N_scope.
 Open Scope bool_scope.
 
-(* two landing paths collide when one is a prefix of the other *)
-Definition apart (L1 L2 : list (list N)) : Prop :=
-  (forall r, L2 <> L1 ++ r) /\ (forall r, L1 <> L2 ++ r).
 
-Definition apart_b (L1 L2 : list (list N)) : bool := negb (is_prefix L1 L2) && negb (is_prefix L2 L1).
 Lemma apart_b_spec L1 L2 : apart_b L1 L2 = true <-> apart L1 L2.
 Proof.
   unfold apart_b, apart. rewrite andb_true_iff, !negb_true_iff. split; intros [A B]; split.
